@@ -15,11 +15,12 @@ func init() {
 // it, the position advances over it, no vBucket is flagged by it, and once
 // the real progress is saved further saves write nothing, for R rounds.
 func H_C14_loop() {
+	vNVcur = 2
 	setMerge(true)
 	R := 3
 	ss := vNewSession()
 	// real progress on an arbitrary vBucket, acknowledged
-	ss.deliverDoc(choose("vb", vNVB), 0, true)
+	ss.deliverDoc(choose("vb", vNV()), 0, true)
 	seenByConsumer := len(ss.fc.consumed)
 	for round := 0; round < R; round++ {
 		before := len(ss.fm.calls)
@@ -34,16 +35,16 @@ func H_C14_loop() {
 			continue
 		}
 		call := ss.fm.calls[len(ss.fm.calls)-1]
-		for vb := 0; vb < vNVB; vb++ {
+		for vb := 0; vb < vNV(); vb++ {
 			if !call.dirty[uint16(vb)] {
 				continue
 			}
 			// the write shows up on the stream of the vBucket the key hashes to (any)
-			target := choose("echo-vb", vNVB)
+			target := choose("echo-vb", vNV())
 			key := append([]byte("_connector:cbgo:"), nondetBytes("keytail", 3)...)
 			_, dirtyBefore, flagBefore := ss.s.GetOffsets()
 			var marks [vNVB]bool
-			for v := 0; v < vNVB; v++ {
+			for v := 0; v < vNV(); v++ {
 				marks[v], _ = dirtyBefore.Load(uint16(v))
 			}
 			o := ss.deliverReserved(target, key)
@@ -52,7 +53,7 @@ func H_C14_loop() {
 			assert(cur == o, "the echoed write advances the vBucket position")
 			_, dirtyAfter, flagAfter := ss.s.GetOffsets()
 			assert(flagAfter == flagBefore, "an absorbed event does not raise the save flag")
-			for v := 0; v < vNVB; v++ {
+			for v := 0; v < vNV(); v++ {
 				m, _ := dirtyAfter.Load(uint16(v))
 				assert(m == marks[v], "an absorbed event does not flag any vBucket for saving")
 			}
